@@ -171,7 +171,7 @@ SIM = {
         "profiles": [{"p_removal": 0.15, "p_sp_order": 0.25, "p_moc_pers": 0.2, "p_inplay": 0.15, "p_partial_cancel": 0.6, "p_cancel": 0.4},
                      {"p_removal": 0.12, "n_markets": (2, 2), "event_processing": True},
                      {"p_removal": 0.12, "n_markets": (2, 2)}],
-        "extra": ["two_market_removal", "early_result"],
+        "extra": ["two_market_removal", "early_result", "removal_variants"],
         "n_quick": 180, "n_thorough": 5000,
         "rule": "removals with factors None/0/below/at/above 2.5 up to 99 at random points of random histories (orders in every state), plus the same selection+factor removed in two markets of one run (sequential and event-grouped)",
         "assumptions": ASSUME_SIM + ["price reduction checked within half a cent of p*(1-af/100) (floating-point rounding of ties is not decided)"],
@@ -182,7 +182,7 @@ SIM = {
                      "invariants": ["Inv_SideSymmetry", "Inv_ZeroIfUnmatchedOrRemoved", "Inv_LoserLosesStake", "Inv_WinnerAtLeastLoser", "Inv_DeadHeatReduces", "Inv_LineEvenMoney"]}],
         "profiles": [{"p_close": 1.0, "p_full_match": 0.3, "p_trade": 0.9, "p_removal": 0.08, "p_sp_order": 0.2, "p_inplay": 0.2, "center": (20, 200), "sizes": [2.0, 3.0, 0.5, 10.0, 2.36, 25.0]},
                      {"p_close": 1.0, "p_trade": 0.9, "n_strategies": (2, 2), "market_types": ["WIN", "EACH_WAY", "EACH_WAY", "PLACE"], "center": (20, 160)}],
-        "extra": ["settlement", "handicap_lines"],
+        "extra": ["settlement", "handicap_lines", "closure"],
         "n_quick": 160, "n_thorough": 5000,
         "rule": "settlement rules (Settlement.tla, integer arithmetic) vs order.profit after the real close: an enumerated family (market type x results incl. dead heats x prices x sizes, paired back/lay with identical fills, line results below/equal/above) plus random runs with real fills, removals and SP",
         "assumptions": ASSUME_SIM + ["tolerance 0.005 x size matched (x(1+1/divisor) for each-way) + 0.01: the code settles on the 2-dp average price", "dead heats in each-way and multi-winner markets are outside the statement (one-winner markets only)", "prices <= 50.0 and sizes <= 50.00 so that all products stay below 2^31"],
